@@ -2,7 +2,7 @@
   What a grammar DERIVES (property C01): the declarative meaning of the combinators, written as an
   inductive relation `Derives cfg g pos x` — "parser `g` can produce tree `x` at position `pos`" —
   independently of caches, left-recursion contexts, curtailment, fuel and evaluation order.
-  This is the monotone reading: `Choice` may take any alternative and the repetition operators may stop
+  This is the monotone reading (trims included since the extension for C05/C16): `Choice` may take any alternative and the repetition operators may stop
   anywhere their `lenCheck` allows (the first-match / longest-path restrictions only remove derivations).
   The tree of a Sequence-family parser is built by the library's own result handler.
 -/
@@ -71,11 +71,9 @@ theorem shape_lookup_all {P : G → Prop} {g : G} {sh : SeqShape} (hg : g.All P)
     · cases hl; exact hg.2.2
   | _ => simp [G.shape] at hs
 
-/-- the local conditions under which the derivation relation speaks about a parser: no whitespace
-    trimming (outside C01's combinator set), and every `Memoize` index wraps one fixed parser -/
+/-- the local condition under which the derivation relation speaks about a parser: every `Memoize`
+    index wraps one fixed parser (each `Memoize` call draws a fresh index) -/
 def LocalOK (bodyOf : Nat → G) : G → Prop
-  | .ltrim _ _ => False
-  | .rtrim _ _ => False
   | .memo i g => g = bodyOf i
   | _ => True
 
@@ -94,6 +92,13 @@ inductive Derives (cfg : Cfg) : G → Nat → Node → Prop
   | suppress {g pos x} : Derives cfg g pos x → Derives cfg (.suppress g) pos x
   | singleUnwrap {g pos tk c p r i} : Derives cfg g pos (.nt tk [c] p r i) → Derives cfg (.single g) pos c
   | singleKeep {g pos x} : Derives cfg g pos x → Derives cfg (.single g) pos x
+  /-- LeftTrim: the operand runs after the whitespace (whether the run satisfies the mode is not part of
+      this monotone reading; C10 is about that) -/
+  | ltrim {g m pos x} : Derives cfg g (skipWhitespaces cfg.file pos m).1 x → Derives cfg (.ltrim g m) pos x
+  /-- RightTrim: the operand's tree with its end moved past the whitespace -/
+  | rtrimMove {g m pos x} : Derives cfg g pos x → Derives cfg (.rtrim g m) pos (setRposNode cfg.file m x none).1
+  /-- RightTrim hands a result that comes together with an error through unchanged -/
+  | rtrimKeep {g m pos x} : Derives cfg g pos x → Derives cfg (.rtrim g m) pos x
   | seqfam {g sh pos nodes} : g.shape = some sh → DerivesSeq cfg sh 0 pos nodes →
       sh.lenCheck nodes.length = true → Derives cfg g pos (handleResult sh pos nodes)
 /-- elements `d, d+1, …` of a Sequence-family parser derive `nodes` one after the other from `pos` -/
